@@ -158,14 +158,8 @@ def _monitored_run(src, inputs, o):
     gtypes = cell_type_map(comp, list(code._globals.items()))
     ftypes = {}
     for name, r in comp.routines.items():
-        ftypes[name] = cell_type_map(comp, list(r.params.items()) + list(r.local_vars.items()))
-        # parameters are references to the caller's location (or to a temporary)
-        k = 0
-        for pn, pt in r.params.items():
-            sz = get_type_size(comp, pt)
-            for j in range(sz):
-                ftypes[name][k + j] = 'REFERENCE'
-            k += sz
+        # parameters are references to the caller's location (or to a temporary): one cell each, whatever they refer to
+        ftypes[name] = ['REFERENCE'] * len(r.params) + cell_type_map(comp, list(r.local_vars.items()))
     problems = []
     impl = real.RecImpl(inputs=inputs)
     buf = io.StringIO()
